@@ -819,3 +819,47 @@ class NPFacade:
 
     def __getattr__(self, k):
         raise Unsupported("np." + k)
+
+
+class DaskFacade:
+    """stands in for `dask` / `dask.base`: compute() is the only modelled entry point; it is an
+    explicit compute event (allowed or not is the contract's business)"""
+
+    def __init__(self):
+        self.used = set()
+
+    def compute(self, *args, **kw):
+        self.used.add("dask.compute")
+        ctx().events.append(("compute", {"n_lazy": sum(1 for a in _walk(args) if isinstance(a, SymDA) and a.lazy)}))
+        return tuple(_unlazy(a) for a in args)
+
+    @property
+    def base(self):
+        return self
+
+    def __getattr__(self, k):
+        raise Unsupported("dask." + k)
+
+
+def _walk(x):
+    if isinstance(x, (list, tuple)):
+        for y in x:
+            yield from _walk(y)
+    elif isinstance(x, dict):
+        for y in x.values():
+            yield from _walk(y)
+    else:
+        yield x
+
+
+def _unlazy(a):
+    if isinstance(a, SymDA):
+        r = a.copy()
+        r.lazy = False
+        r.owner = a.owner
+        return r
+    if isinstance(a, dict):
+        return {k: _unlazy(v) for k, v in a.items()}
+    if isinstance(a, (list, tuple)):
+        return type(a)(_unlazy(v) for v in a)
+    return a
